@@ -68,10 +68,14 @@ def rand_energies(rng, sub, exactfloat=False, degenerate_inside=True, cplx_energ
     pools = {b: [] for b in range(nb)}
     for k, v in enumerate(allv[: 3 * nb]):
         pools[k % nb].append(v)
-    E = []
-    for s in sub:
-        v = rng.choice(pools[s]) if degenerate_inside else pools[s][0]
-        E.append(G(Fr(v), Fr(rng.randint(-2, 2)) if cplx_energies else 0))
+    while True:
+        E = []
+        for s in sub:
+            v = rng.choice(pools[s]) if degenerate_inside else pools[s][0]
+            E.append(G(Fr(v), Fr(rng.randint(-2, 2)) if cplx_energies else 0))
+        # the library rejects an unperturbed Hamiltonian whose diagonal blocks all vanish
+        if any(not e.is_zero() for e in E):
+            break
     if cplx_energies:
         # keep blocks disjoint: real parts already disjoint across blocks
         pass
